@@ -9,7 +9,7 @@ class C14(Spec):
     id = "C14"
     anchors = ["sortx.Search"]
     harness = "c14"
-    driver_args = ["search"]
+    driver = "drv_search"
     rule = ("one case = one Search call on synthetic predicates (mono: sorted list given by boundary b and run of "
             "equals e; bits: arbitrary predicate bitmasks); compared: result and full probe log. distinct by script "
             "line; non-trivial = count > 0 and at least one probe")
